@@ -70,8 +70,11 @@ def make_struct(case):
     name, base, members, flag = case["decl"]
     ET = _T(name, base, members, flag)
     cfg = case["cfg"]
-    T = ["struct", "test", [["e", ET, None], ["arr", G.arr(ET, 2), None], ["t", G.U8, None]], False]
+    # a flag over a signed type forks ~10 ways per value (enum.Flag's folding of negative values): one array element there
+    T = ["struct", "test", [["e", ET, None], ["arr", G.arr(ET, 1 if flag and base[2] else 2), None], ["t", G.U8, None]], False]
     cs, cls = H.load(T, cfg)
+    E = getattr(cs, ET[1])
+    L = H.layout(cfg)
 
     def run(ctx):
         n = H.input_len(T, cfg)
@@ -83,8 +86,16 @@ def make_struct(case):
             return
         ref = H.ref_parser(ctx, cfg)
         rv, _ = ref.parse(T, data, 0)
-        ctx.inputs["neg"] = R.Or(rv["e"] < 0, rv["arr"][0] < 0, rv["arr"][1] < 0)
+        ctx.inputs["neg"] = R.Or(rv["e"] < 0, *[x < 0 for x in rv["arr"]])
         ctx.check("member and array elements carry the underlying integers", R.value_eq(T, v, rv))
+        # an array element is the same object a scalar parse of its bytes gives: same member (name), equal, same hash
+        w = L.size_align(base)[0]
+        aoff = L.struct_layout(T)[0][1][0]
+        for i, el in enumerate(v.arr if not (flag and base[2]) else ()):   # flags over signed types: see the known finding
+            sc = E.read(ctx.stream(data[aoff + i * w:aoff + (i + 1) * w]))
+            ctx.check(f"arr[{i}]: equal to the scalar parse of the same bytes", el == sc)
+            ctx.check(f"arr[{i}]: hashes like the scalar parse of the same bytes", hash(el) == hash(sc))
+            ctx.check(f"arr[{i}]: names the same member as the scalar parse", el.name == sc.name, f"{el.name!r} vs {sc.name!r}")
         try:
             o = v.dumps()
             ctx.check("dump reproduces the underlying bytes", R.And(*[(o[i] == data[i]) for i in range(len(o)) if ref.mask.get(i)]))
@@ -192,6 +203,9 @@ def make_numbering(case):
                     ks[k] = ctx.int(k, 1 if flag else 0, 1 << 20)
                 parts.append(f"{mname} = {sh.replace('+', ' + ')}")
         cs.consts.update(ks)
+        if case.get("shadow"):
+            # a constant defined earlier under the name of the first member: later members still refer to the member
+            cs.consts["M0"] = ctx.int("shadow", 0, 1 << 20)
         text = f"{'flag' if flag else 'enum'} E : uint32 {{ {', '.join(parts)} }};"
         try:
             cs.load(text)
@@ -272,6 +286,8 @@ def cases(tier, seed):
                 yield {"label": f"scalar {d[0]}", "decl": list(d), "cfg": cfg}
                 yield {"label": f"eq {d[0]}", "decl": list(d), "cfg": cfg, "make": "make_eq"}
             yield {"label": f"struct {d[0]}", "decl": list(d), "cfg": cfg, "make": "make_struct"}
+            if cfg["endian"] == "<":
+                yield {"label": f"struct {d[0]}", "decl": list(d), "cfg": dict(cfg, align=True), "make": "make_struct"}
             if not d[1][2] and d[1][1] in (1, 2, 4):   # unsigned 8/16/32-bit underlying types (fork count stays small)
                 yield {"label": f"bits {d[0]}", "decl": list(d), "cfg": cfg, "make": "make_bits"}
     import itertools
@@ -284,6 +300,9 @@ def cases(tier, seed):
             for flag in (False, True):
                 yield {"label": f"numbering {'flag' if flag else 'enum'} {','.join(shape)}", "shape": list(shape), "flag": flag,
                        "make": "make_numbering", "width": 64}
+                if k <= 3 and ("prev" in shape or "prevor" in shape):
+                    yield {"label": f"numbering {'flag' if flag else 'enum'} {','.join(shape)} shadowed", "shape": list(shape), "flag": flag,
+                           "make": "make_numbering", "width": 64, "shadow": True}
     for text, exp in CONCRETE:
         yield {"label": "concrete " + text[:40].replace("\n", " "), "text": text, "expected": exp, "make": "make_concrete"}
     for text, exp in CONCRETE[:3] + CONCRETE[5:7]:
